@@ -274,7 +274,16 @@ func (e *e2e) handle(id int, nd *node.Node) node.Handler {
 		if cs.triggered != nil {
 			cs.afterCancel++
 		}
+		if rc.started >= maxExecs {
+			rc.runaway = true
+		}
+		run := rc.runaway
 		rc.mu.Unlock()
+		if run {
+			// hard cap: a success ends the execution
+			c.Reply(req, node.Void{})
+			return
+		}
 		rc.mu.Lock()
 		out := rc.nextOutcomeLocked()
 		rc.started++
@@ -678,6 +687,9 @@ func (e *e2e) runCaseAt(sc *script, kind string, prepStage bool) bool {
 		b = b.WithContext(ctx)
 		b.SetConsistency(gocql.Consistency(sc.cons0))
 		sc.retryOption(rc, func(p gocql.RetryPolicy) { b.RetryPolicy(p) })
+		if sc.observer {
+			b.Observer(nopObserver{})
+		}
 		if sc.spk != 0 {
 			b.SpeculativeExecutionPolicy(&specPolicy{k: sc.spk, delay: 50 * time.Microsecond})
 		}
@@ -713,6 +725,9 @@ func (e *e2e) runCaseAt(sc *script, kind string, prepStage bool) bool {
 			q.Idempotent(*sc.src.override)
 		}
 		sc.retryOption(rc, func(p gocql.RetryPolicy) { q.RetryPolicy(p) })
+		if sc.observer {
+			q.Observer(nopObserver{})
+		}
 		if sc.spk != 0 {
 			q.SetSpeculativeExecutionPolicy(&specPolicy{k: sc.spk, delay: 50 * time.Microsecond})
 		}
@@ -833,6 +848,10 @@ func (e *e2e) runFree(sc *script) {
 		o.Violate(-1, "panic", "", fmt.Sprintf("executor panicked: %v", pan), in)
 		return
 	}
+	if rc.runaway {
+		o.Violate(-1, "budget", "", runawayMsg(sc), in)
+		return
+	}
 	if err != nil && rc.specOf(err) == nil && err != gocql.ErrNoConnections && err != gocql.ErrUnknownRetryType {
 		o.Violate(-1, "one-result", "", fmt.Sprintf("the result's error %v is no attempt's error", err), in)
 	}
@@ -875,7 +894,10 @@ func errorMsg(o *outSpec) node.Message {
 func (e *e2e) handleControlled(cs *e2eCase, id int, nd *node.Node, c *node.ServerConn, req *node.Request) {
 	rc := cs.rc
 	rc.mu.Lock()
-	if rc.closed {
+	if rc.started >= maxExecs {
+		rc.runaway = true
+	}
+	if rc.closed || rc.runaway {
 		rc.mu.Unlock()
 		c.Reply(req, node.Void{})
 		return
@@ -1067,6 +1089,34 @@ func (e *e2e) runRetryOptions() {
 				_ = g
 				e.runCase(sc, "seq-end-to-end-retry-option")
 			}
+		}
+	}
+}
+
+type nopObserver struct{}
+
+func (nopObserver) ObserveQuery(context.Context, gocql.ObservedQuery) {}
+func (nopObserver) ObserveBatch(context.Context, gocql.ObservedBatch) {}
+
+// runAttemptCounting: the attempt counter the policies consult, on real statements with and without an
+// observer: SimpleRetryPolicy{0,1,2}, five failing hosts (more than NumRetries+1).  Independent of the seed.
+func (e *e2e) runAttemptCounting() {
+	for stmtKind := 0; stmtKind < 4; stmtKind++ {
+		for n := 0; n <= 2; n++ {
+			sc := &script{cons0: 4, pol: polDesc{kind: 1, n: n}, observer: stmtKind%2 == 1, bindSet: true}
+			for i := 0; i < 5; i++ {
+				sc.hosts = append(sc.hosts, gocql.VerifC13Host{ID: 1 + (i+stmtKind+n)%5})
+			}
+			k := (stmtKind + n) % len(e2eOtherCodes)
+			sc.dflt = oc{&outSpec{kind: 6, a: int64(100 + k), tag: 500, wire: e2eOtherCodes[k]}, true}
+			t := true
+			if stmtKind >= 2 {
+				sc.batch = true
+				sc.src = &idemSrc{batch: true, sessionBatch: true, entries: []gocql.VerifC13Entry{{Set: true, Idempotent: true}, {Set: true, Idempotent: true, Bind: true}}}
+			} else {
+				sc.src = &idemSrc{clusterDefault: e.defaultIdem, override: &t}
+			}
+			e.runCase(sc, "seq-end-to-end-attempt-counting")
 		}
 	}
 }
